@@ -1,0 +1,40 @@
+//! Verification hooks (H7): a process-global callback registry used by the
+//! verification harness under `/verif`. Compiled only with the `verif-hooks`
+//! feature; all entry points are no-ops until a harness installs callbacks.
+
+use std::path::Path;
+use std::sync::RwLock;
+
+type YieldFn = Box<dyn Fn(&'static str) + Send + Sync>;
+type IoFn = Box<dyn Fn(&'static str, &Path, u64) + Send + Sync>;
+
+static YIELD_HOOK: RwLock<Option<YieldFn>> = RwLock::new(None);
+static IO_HOOK: RwLock<Option<IoFn>> = RwLock::new(None);
+
+/// Installs (or clears) the callback invoked at every [`yield_point`].
+pub fn set_yield_hook(f: Option<YieldFn>) {
+    *YIELD_HOOK.write().unwrap_or_else(|e| e.into_inner()) = f;
+}
+
+/// Installs (or clears) the callback invoked at every [`io_event`].
+pub fn set_io_hook(f: Option<IoFn>) {
+    *IO_HOOK.write().unwrap_or_else(|e| e.into_inner()) = f;
+}
+
+/// A point between two steps of a lock-free check-then-act sequence where a
+/// controlled scheduler may switch threads.
+#[inline]
+pub fn yield_point(tag: &'static str) {
+    if let Some(f) = YIELD_HOOK.read().unwrap_or_else(|e| e.into_inner()).as_ref() {
+        f(tag);
+    }
+}
+
+/// Reports a durability-relevant I/O step (`kind`) on `path`; `len` is the
+/// file length known to be durable / written at that instant (0 if unknown).
+#[inline]
+pub fn io_event(kind: &'static str, path: &Path, len: u64) {
+    if let Some(f) = IO_HOOK.read().unwrap_or_else(|e| e.into_inner()).as_ref() {
+        f(kind, path, len);
+    }
+}
